@@ -410,7 +410,11 @@ func carries(x, e ssa.Value) bool {
 // known to have succeeded, or the value returned is the read's error itself,
 // or it is provably non-nil and not a retry sentinel.  (Replacing a read
 // error by "need more data" makes the caller spin on a dead connection.)
-func faultRule(c *Ctx, rule string, p *Prog, cio *connIO, fns map[*ssa.Function]bool) {
+func faultRule(c *Ctx, rule string, p *Prog, cio *connIO, fns map[*ssa.Function]bool, minReads ...int) {
+	min := 6
+	if len(minReads) > 0 {
+		min = minReads[0]
+	}
 	sent := retrySentinels(p)
 	var keys []*ssa.Function
 	for fn := range fns {
@@ -486,8 +490,8 @@ func faultRule(c *Ctx, rule string, p *Prog, cio *connIO, fns map[*ssa.Function]
 		})
 	}
 	o := c.Obl(rule, "count", "anti-vacuity: the raw reads of the transports are found")
-	if n < 6 {
-		o.Undecide("found %d raw reads, expected at least 6", n)
+	if n < min {
+		o.Undecide("found %d raw reads, expected at least %d", n, min)
 	} else {
 		o.Hold("%d raw reads; retry sentinels: %d", n, len(sent))
 	}
